@@ -27,7 +27,10 @@ def check_prop(case, ev):
     m = common.build_valid(case, ev)
     if m is None:
         return
-    s = call(m.to_b64, what="to_b64")
+    dec = ["utf8", "ascii", "latin-1", "utf8"][len(str(spec)) % 4]      # base64 text is plain ASCII under every decoding
+    s = call(m.to_b64, dec, what=f"to_b64({dec!r})")
+    if call(m.to_b64, what="to_b64") != s:
+        raise Violation(f"to_b64({dec!r}) differs from to_b64()")
     if not isinstance(s, str):
         raise Violation(f"to_b64 returned {type(s).__name__}")
     m2 = call(pg.from_b64, s, what="from_b64")
